@@ -1,3 +1,5 @@
+#[cfg(okane_verif)]
+use crate::verif::std;
 use std::collections::HashMap;
 
 use super::{
